@@ -339,8 +339,8 @@ func Verif_C02_node_names_are_exact() {
 // decoder byte for byte as they went in.
 func Verif_C02_service_names_are_bytes() {
 	s := verifNetceptor("A").s
-	names := []string{"\xff", "cli\xe9nt", "\x80", "a\xc3", "ok"}
-	md := &MessageData{FromNode: "A", ToNode: "A", FromService: names[verifapi.Choose(5)], ToService: names[verifapi.Choose(5)], HopsToLive: 3, Data: []byte{1}}
+	names := []string{"\xff", "cli\xe9nt", "\x80", "a\xc3", "ok", "caf\xc3\xa9"}
+	md := &MessageData{FromNode: "A", ToNode: "A", FromService: names[verifapi.Choose(6)], ToService: names[verifapi.Choose(6)], HopsToLive: 3, Data: []byte{1}}
 	wire, err := s.translateDataFromMessage(md)
 	verifapi.Assert("encoded", err == nil)
 	back, derr := s.translateDataToMessage(wire)
